@@ -125,6 +125,16 @@ uint8_t get_reg(struct instr *instrc, struct operand *m, int r) {
       m->reg = NO_BASE;
       instrc->no_base = true;
     }
+    // a base register made from the index has the special cases of a written
+    // one: rsp/r12 need a SIB byte, rbp/r13 cannot be used with mod 00
+    if (m->reg != NO_BASE && IN_RANGE(m->reg & MODE_MASK, reg32, ext64)) {
+      if ((m->reg & VALUE_MASK) == spl && m->index == reg_none)
+        instrc->is_sib_const = true;
+      if ((m->reg & VALUE_MASK) == bpl && !instrc->mem_offset) {
+        instrc->mod_disp = MOD8;
+        instrc->zero_byte = true;
+      }
+    }
     if (m->reg == NO_BASE) {
       // without a base register the displacement field is 32 bits wide:
       // an 8-bit negative displacement has to be sign extended into it
